@@ -3332,6 +3332,11 @@ class ISLaSolver:
                             existential_formula,
                         )
                         break
+                    except TimeoutError:
+                        # The unsatisfiability check is inconclusive after its
+                        # internal timeout: keep the state. The timeout of this
+                        # nested call must not escape the enclosing solve() call.
+                        pass
                     finally:
                         self.start_time = old_start_time
                         self.timeout_seconds = old_timeout_seconds
